@@ -45,7 +45,16 @@ def main() -> int:
         worktree = f"/tmp/vf-seed-{os.getpid()}-{seed}"
         subprocess.run(["git", "-C", "/repo", "worktree", "add", "-q", "--detach", worktree, "HEAD"], check=True)
         try:
-            applied = subprocess.run(["git", "-C", worktree, "apply", str(ROOT / "seeded" / seed / "patch.diff")])
+            patch = str(ROOT / "seeded" / seed / "patch.diff")
+            applied = subprocess.run(["git", "-C", worktree, "apply", patch], capture_output=True)
+            if applied.returncode != 0:
+                applied = subprocess.run(["git", "-C", worktree, "apply", "--3way", patch], capture_output=True)
+            if applied.returncode != 0:
+                base = json.loads((ROOT / "seeded" / seed / "meta.json").read_text()).get("base_commit", "0ed460a")
+                subprocess.run(["git", "-C", worktree, "reset", "-q", "--hard"])
+                subprocess.run(["git", "-C", worktree, "checkout", "-q", "--detach", base])
+                applied = subprocess.run(["git", "-C", worktree, "apply", patch], capture_output=True)
+                print(f"{seed}: note: applied on its base commit {base[:7]}")
             if applied.returncode != 0:
                 print(f"{seed}: PATCH DOES NOT APPLY on /repo HEAD")
                 missed.append(seed)
